@@ -30,6 +30,10 @@ OLD = {}
 for l in open(os.path.join(V, "tools", "seed_table_old.md")):
     c = [x.strip() for x in l.strip().strip("|").split("|")]
     if len(c) >= 5 and c[0].startswith("`"): OLD[c[0].strip("`")] = (c[2], c[4])
+STRENGTHENED.update({
+ "C04-sh-version-03xx-accepted": "every 16-bit legacy version through both ServerHello dispatchers and the handshake dispatcher (first run: tie only)",
+ "C11-certreq-reserved-sigalg-rejected": "the two CertificateRequest sweeps of C11 were malformed lines (entry name glued to the input) that both sides answered `(noentry)`: corrected, and `(noentry)` from the harness is now a reported check error (first run: T12 only)",
+})
 rows = []
 for d in sorted(glob.glob(os.path.join(V, "seeded", "*/"))):
     n = os.path.basename(d.rstrip("/"))
